@@ -2252,6 +2252,7 @@ ly_bool
 lys_has_dep_mods(const struct lys_module *mod)
 {
     LY_ARRAY_COUNT_TYPE u;
+    ly_bool has_imports, has_typedefs;
 
     /* features */
     if (mod->parsed->features) {
@@ -2276,6 +2277,32 @@ lys_has_dep_mods(const struct lys_module *mod)
         if (mod->parsed->includes[u].submodule->augments) {
             return 1;
         }
+    }
+
+    /* deviations (applied when their target module is compiled, may use definitions of the other imported modules) */
+    if (mod->parsed->deviations) {
+        return 1;
+    }
+    LY_ARRAY_FOR(mod->parsed->includes, u) {
+        if (mod->parsed->includes[u].submodule->deviations) {
+            return 1;
+        }
+    }
+
+    /* typedefs that may use definitions of the imported modules (if-features of enums and bits, identityref bases),
+     * modules using such a typedef depend on these imports */
+    has_imports = mod->parsed->imports ? 1 : 0;
+    has_typedefs = mod->parsed->typedefs ? 1 : 0;
+    LY_ARRAY_FOR(mod->parsed->includes, u) {
+        if (mod->parsed->includes[u].submodule->imports) {
+            has_imports = 1;
+        }
+        if (mod->parsed->includes[u].submodule->typedefs) {
+            has_typedefs = 1;
+        }
+    }
+    if (has_imports && has_typedefs) {
+        return 1;
     }
 
     return 0;
